@@ -400,7 +400,8 @@ func fnSetBit(ctx *cmdContext, args map[string]any) (output respValue, err error
 	offset64 := args["offset"].(int64)
 	value64 := args["value"].(int64)
 
-	if offset64 < 0 {
+	if offset64 < 0 || offset64 >= 8*512*1024*1024 {
+		// the offset must address a bit inside the 512MB a string may hold
 		output.data = respErrorString("ERR bit offset is not an integer or out of range")
 		return
 	}
